@@ -88,6 +88,9 @@ func RunChaos(in ChaosIn) ChaosObs {
 	if in.Mode == "stuck-write" {
 		return runStuckWrite(in)
 	}
+	if in.Mode == "close-race" {
+		return runCloseRace(in)
+	}
 	obs := ChaosObs{Final: []string{}, Blocked: []string{}}
 	ca, cb, err := c10.Pair()
 	if err != nil {
@@ -472,4 +475,103 @@ func StuckWrite(r *rand.Rand, mp int, i int) c10.Job {
 		Nids: 1 + r.Intn(4), Closers: 1 + r.Intn(8), FaultAt: 5 + r.Intn(40),
 		MaxLen: (600 + r.Intn(1500)) << 10, Seed: r.Int63n(1 << 30), WaitMs: 5000}
 	return c10.Job{ID: fmt.Sprintf("chaos-stuck-%d", i), In: in}
+}
+
+// runCloseRace: "closing repeatedly or concurrently never panics and never blocks", raced hard:
+// in every round a fresh pair of muxes, one listener (an Accept parked on it), one connection (a
+// Read parked on it); then in.Closers goroutines released by one barrier all close the SAME
+// object - the listener, then the connection, then the mux - and each closes it a second time.
+// A panic in any of them is recovered and reported as the observation "crashed"; a call that
+// does not return as "blocked". in.Writes = number of rounds.
+func runCloseRace(in ChaosIn) ChaosObs {
+	obs := ChaosObs{Conns: []ConnLog{}, Final: []string{}, Blocked: []string{}}
+	wait := time.Duration(in.WaitMs) * time.Millisecond
+	var mu sync.Mutex
+	blocked := func(s string) { mu.Lock(); obs.Blocked = append(obs.Blocked, s); mu.Unlock() }
+	crashed := func(what string, r interface{}) {
+		mu.Lock()
+		if obs.Crashed == "" {
+			obs.Crashed = fmt.Sprintf("panicked in concurrent Close of one %s: %v", what, r)
+		}
+		mu.Unlock()
+	}
+	race := func(what string, closeFn func() error) {
+		start := make(chan struct{})
+		var wg sync.WaitGroup
+		for k := 0; k < in.Closers; k++ {
+			wg.Add(1)
+			go func() {
+				defer wg.Done()
+				defer func() {
+					if r := recover(); r != nil {
+						crashed(what, r)
+					}
+				}()
+				<-start
+				closeFn()
+				closeFn()
+			}()
+		}
+		close(start)
+		if !call(wait, wg.Wait) {
+			blocked("concurrent close of one " + what)
+		}
+	}
+	for round := 0; round < in.Writes; round++ {
+		mu.Lock()
+		stop := obs.Crashed != "" || len(obs.Blocked) > 0
+		mu.Unlock()
+		if stop {
+			break
+		}
+		ca, cb, err := c10.Pair()
+		if err != nil {
+			obs.Crashed = "harness: " + err.Error()
+			return obs
+		}
+		ma := mux.Multiplex(ca, mux.WithReadQueueLength(in.Qlen))
+		mb := mux.Multiplex(cb, mux.WithReadQueueLength(in.Qlen))
+		l, err := ma.Listen(mux.ConnID(7))
+		if err != nil {
+			obs.Crashed = "harness: listen: " + err.Error()
+			return obs
+		}
+		c, err := ma.Open(mux.ConnID(8))
+		if err != nil {
+			obs.Crashed = "harness: open: " + err.Error()
+			return obs
+		}
+		var parked sync.WaitGroup
+		parked.Add(2)
+		go func() {
+			defer parked.Done()
+			if x, err := l.Accept(); err == nil { // the first Accept hands the connection out
+				defer x.Close()
+				l.Accept() // the second one parks until the listener is closed
+			}
+		}()
+		go func() { defer parked.Done(); c.Read(make([]byte, 16)) }()
+		if round%2 == 1 {
+			time.Sleep(50 * time.Microsecond) // let them park
+		}
+		race("listener", l.Close)
+		race("connection", c.Close)
+		race("mux", ma.Close)
+		if !call(wait, parked.Wait) {
+			blocked("Accept/Read parked on objects that were closed")
+		}
+		mb.Close()
+		ca.Close()
+		cb.Close()
+	}
+	mu.Lock()
+	obs.Final = append(obs.Final, "close-race rounds completed")
+	mu.Unlock()
+	return obs
+}
+
+func CloseRace(r *rand.Rand, mp int, i int, rounds int) c10.Job {
+	in := ChaosIn{Kind: "chaos", Note: "close-race", Mp: mp, Mode: "close-race", Qlen: 4, Nids: 2,
+		Closers: 3 + r.Intn(6), Writes: rounds, Seed: r.Int63n(1 << 30), WaitMs: 5000}
+	return c10.Job{ID: fmt.Sprintf("chaos-closerace-%d", i), In: in}
 }
